@@ -720,6 +720,22 @@ def annotate(text, annots):
             at = a["at"]
             if at == "body_start":
                 ins.append((ts[b].end, "\n" + a["text"].rstrip() + "\n", "ghost", order))
+            elif at == "if_branch_end":
+                # end of the then-block (branch 0) / else-block (branch 1) of the k-th `if` of the body
+                ifs = [x for x in range(b + 1, e) if ts[x].kind == "ident" and ts[x].text == "if"
+                       and ts[x - 1].text != "else"]
+                k = a.get("ordinal", 0)
+                if k >= len(ifs):
+                    raise VxError("lost anchor: if ordinal %d, function has %d ifs" % (k, len(ifs)))
+                tb = next_body_brace(ts, ifs[k] + 1, e)
+                te = match_close(ts, tb)
+                if a.get("branch", 0) == 0:
+                    ins.append((ts[te].start, "\n" + a["text"].rstrip() + "\n", "ghost", order))
+                else:
+                    if ts[te + 1].text != "else" or ts[te + 2].text != "{":
+                        raise VxError("lost anchor: if %d has no plain else block" % k)
+                    ee = match_close(ts, te + 2)
+                    ins.append((ts[ee].start, "\n" + a["text"].rstrip() + "\n", "ghost", order))
             else:
                 loops = _loops(ts, b + 1, e)
                 k = a.get("ordinal", 0)
